@@ -23,7 +23,19 @@ class GenError(Exception):
 
 # ------------------------------------------------------------------ Gallina printers
 def txt(s):
-    return "[" + ";".join(str(ord(c)) for c in s) + "]"
+    """text literal; runs of >= 64 equal characters are written (rep c n) to keep coqc's parser fast"""
+    parts = []; cur = []; i = 0
+    while i < len(s):
+        j = i
+        while j < len(s) and s[j] == s[i]: j += 1
+        if j - i >= 64:
+            if cur: parts.append("[" + ";".join(cur) + "]"); cur = []
+            parts.append(f"rep {ord(s[i])} {j - i}")
+        else:
+            cur += [str(ord(s[i]))] * (j - i)
+        i = j
+    if cur or not parts: parts.append("[" + ";".join(cur) + "]")
+    return parts[0] if len(parts) == 1 and parts[0].startswith("[") else "(" + " ++ ".join(parts) + ")"
 
 
 def jlit(v):
@@ -227,7 +239,7 @@ SPECIFIC = {
     "KTimeFormat": ["frames", "clock_time", "clock_time_with_frames", "Frames", "FRAMES", "clock", "clock_time ", " frames", ["frames"]],
     "KFps": ["25/1", "30000/1001", "24000/1001", "60/1", "-25/1", "25/-1", "-25/-5", "0/1", "25/0", "0/0", " 25 / 1 ", "25 /1", "+25/1", "2_5/1",
              "_25/1", "25_/1", "2__5/1", "25", "1/2/3", "/", "1/", "/1", "a/b", "25.0/1", "２５/１", "٢٥/1", "50/2", "6/4",
-             "25/1\n", "\t25/1", "\x1c25/1", "1" * 4300 + "/1", "1" * 4301 + "/1", "0" * 4301 + "/1", "1/" + "1" * 4301, " 25/1", "25/1 ", "1 0/1", "0x10/1"],
+             "25/1\n", "\t25/1", "\x1c25/1", "0" * 4299 + "1/1", "0" * 4299 + "25/1", "1" * 4301 + "/1", "0" * 4301 + "/1", "1/" + "1" * 4301, " 25/1", "25/1 ", "1 0/1", "0x10/1"],
     "KSccTextAlign": ["auto", "left", "center", "right", "LEFT", "Center", "RIGHT ", " right", "AUTO", "start", "end", "centre", "left", "K"],
     "KStartTc": ["TCP", "tcp", "Tcp", "tcP", " TCP", "TCP ", "00:00:00:00", "10:00:00:00", "23:59:59:24", "10:00:00;00", "10;00;00;00", "10:00:00.00",
                  "10:00:00,00", "10x00y00z00", "10:00:00:00xyz", "10:00:00:0", "1:00:00:00", "10:00:00", "10:00:00\n00", "10\n00:00:00", "1000000000",
@@ -327,7 +339,7 @@ def gen_tables():
     import ttconv.tt as tt
     from ttconv.filters.document_filter import DocumentFilter
     out = ["(* GENERATED by harness/gen_c19.py from ttconv/tt.py, config.py, */config.py, filters/ — do not edit *)",
-           "From TT Require Import Base.Prelude Gen.CliUnicode Model.Cli.", ""]
+           "From TT Require Import Base.Prelude Base.CliTypes Gen.CliUnicode Model.Cli.", ""]
     rows = [f"({txt(m.name)}, {txt(m.value)})" for m in list(tt.FileTypes)]
     for m in list(tt.FileTypes):
         if not isinstance(m.value, str): raise GenError("file type value")
